@@ -485,6 +485,115 @@ type E7 struct {
 	E3
 }
 
+// the same embedded types with omitempty on every field, and fields of other kinds next to the integers (what counts as
+// empty is looked up in the memory of the field: for a field promoted through an embedded pointer that memory is behind
+// the pointer)
+type O1 struct {
+	X, Y int    `json:",omitempty"`
+	S    string `json:"s1,omitempty"`
+	P    *int   `json:"p1,omitempty"`
+}
+type O2 struct {
+	X int `json:",omitempty"`
+}
+type O3 struct {
+	X int `json:"X,omitempty"`
+}
+type O4 struct{ O2 }
+type O5 struct {
+	Y int `json:"X,omitempty"`
+}
+type O6 struct {
+	Z int            `json:",omitempty"`
+	x int            //nolint
+	M map[string]int `json:"m6,omitempty"`
+	L []int          `json:"l6,omitempty"`
+	B bool           `json:"b6,omitempty"`
+	F float64        `json:"f6,omitempty"`
+	I any            `json:"i6,omitempty"`
+}
+type O7 struct {
+	O1
+	O3
+}
+
+var embedOptTypes = map[string]reflect.Type{"E1": reflect.TypeOf(O1{}), "E2": reflect.TypeOf(O2{}), "E3": reflect.TypeOf(O3{}),
+	"E4": reflect.TypeOf(O4{}), "E5": reflect.TypeOf(O5{}), "E6": reflect.TypeOf(O6{}), "E7": reflect.TypeOf(O7{})}
+
+// scenarioOptType: the scenario with omitempty on every field
+func scenarioOptType(v *jsonVec) reflect.Type {
+	var fs []reflect.StructField
+	own := append([]string(nil), v.Own...)
+	sort.Strings(own)
+	for _, o := range own {
+		switch o {
+		case "OX":
+			fs = append(fs, reflect.StructField{Name: "X", Type: reflect.TypeOf(0), Tag: `json:",omitempty"`})
+		case "OT":
+			fs = append(fs, reflect.StructField{Name: "W", Type: reflect.TypeOf(0), Tag: `json:"X,omitempty"`})
+		case "OY":
+			fs = append(fs, reflect.StructField{Name: "Y", Type: reflect.TypeOf(0), Tag: `json:",omitempty"`})
+		}
+	}
+	for _, e := range v.Embeds {
+		base := embedOptTypes[e.E]
+		t := base
+		if e.Ptr {
+			t = reflect.PointerTo(base)
+		}
+		fs = append(fs, reflect.StructField{Name: base.Name(), Type: t, Anonymous: true})
+	}
+	return reflect.StructOf(fs)
+}
+
+// allocEmbedded sets every embedded struct pointer (at any depth) to a new zero struct; with fill every integer field
+// gets a value
+func allocEmbedded(v reflect.Value, fill bool, n *int) {
+	for v.Kind() == reflect.Ptr {
+		if v.IsNil() {
+			if !v.CanSet() {
+				return
+			}
+			v.Set(reflect.New(v.Type().Elem()))
+		}
+		v = v.Elem()
+	}
+	if v.Kind() != reflect.Struct {
+		return
+	}
+	for i := 0; i < v.NumField(); i++ {
+		f := v.Field(i)
+		sf := v.Type().Field(i)
+		if sf.Anonymous {
+			allocEmbedded(f, fill, n)
+			continue
+		}
+		if !fill || !f.CanSet() {
+			continue
+		}
+		*n++
+		switch f.Kind() {
+		case reflect.Int:
+			f.SetInt(int64(*n))
+		case reflect.String:
+			f.SetString("s" + strconv.Itoa(*n))
+		case reflect.Bool:
+			f.SetBool(true)
+		case reflect.Float64:
+			f.SetFloat(float64(*n) + 0.5)
+		case reflect.Slice:
+			f.Set(reflect.ValueOf([]int{*n}))
+		case reflect.Map:
+			f.Set(reflect.ValueOf(map[string]int{"k": *n}))
+		case reflect.Interface:
+			f.Set(reflect.ValueOf(*n))
+		case reflect.Ptr:
+			x := *n
+			f.Set(reflect.ValueOf(&x))
+		}
+	}
+}
+
 var embedTypes = map[string]reflect.Type{"E1": reflect.TypeOf(E1{}), "E2": reflect.TypeOf(E2{}), "E3": reflect.TypeOf(E3{}),
 	"E4": reflect.TypeOf(E4{}), "E5": reflect.TypeOf(E5{}), "E6": reflect.TypeOf(E6{}), "E7": reflect.TypeOf(E7{})}
 
@@ -572,6 +681,33 @@ func c01Scenario(c *Ctx, v *jsonVec) {
 	}
 	c.Case()
 	check("json.Marshal(embedded fields)", gb, gerr, false)
+	// the same scenario with omitempty on every field: nothing set (embedded pointers nil), embedded pointers set to
+	// zero structs, every field set - byte for byte against encoding/json
+	var ot reflect.Type
+	if p := protect(func() { ot = scenarioOptType(v) }); p == "" {
+		for _, fill := range []string{"nothing set", "embedded pointers allocated, fields zero", "every field set"} {
+			ov := reflect.New(ot).Elem()
+			n := 0
+			if fill != "nothing set" {
+				allocEmbedded(ov, fill == "every field set", &n)
+			}
+			wb, we := stdjson.Marshal(ov.Interface())
+			var ob []byte
+			var oe error
+			c.Case()
+			if p := protect(func() { ob, oe = json.Marshal(ov.Interface()) }); p != "" {
+				c.Diverge("C01", "json.Marshal(embedded fields with omitempty)", clipS(string(wb)), p+" ("+fill+")", "", k)
+				continue
+			}
+			c01Compare(c, k, "json.Marshal(embedded fields with omitempty: "+fill+")", wb, we, ob, oe, "")
+			wb2, we2 := stdjson.Marshal(ov.Addr().Interface())
+			if p := protect(func() { ob, oe = json.Marshal(ov.Addr().Interface()) }); p != "" {
+				c.Diverge("C01", "json.Marshal(&embedded fields with omitempty)", clipS(string(wb2)), p+" ("+fill+")", "", k)
+				continue
+			}
+			c01Compare(c, k, "json.Marshal(&embedded fields with omitempty: "+fill+")", wb2, we2, ob, oe, "")
+		}
+	}
 	// decoding direction (C02's relation, same scenario): every name set; the same fields must receive it
 	doc := []byte(`{"X":101,"Y":102,"Z":103,"x":104,"W":105}`)
 	t1, t2 := reflect.New(t), reflect.New(t)
@@ -902,6 +1038,13 @@ func c02Decode(c *Ctx, k jsonCase, t reflect.Type, docs []string, mode string) {
 		}
 		if !bytes.Equal(b, orig) {
 			c.Diverge("C10", api, "input unchanged", "input modified", "", k)
+		}
+		// the input was lent for the call: the caller has it back and writes over it; what was decoded is compared
+		// afterwards (encoding/json never keeps a reference to its input; no zero-copy flag is set here)
+		if mode == "Unmarshal" || mode == "Parse" {
+			for j := range b {
+				b[j] = 'X'
+			}
 		}
 		if (e1 == nil) != (e2 == nil) {
 			c.Diverge("C02", api, errStr(e1)+" "+showVal(t1.Elem()), errStr(e2)+" "+showVal(t2.Elem()), c02Finding(k, doc, t), k)
